@@ -74,6 +74,8 @@ type c11Env struct {
 	pre      map[string]c11RawState // "ds|key" → raw state at first touch
 	order    []string
 	casRetryFor uint64
+	persistKey    string // cas-persistent: DS|key whose compare-and-swap writes keep losing
+	persistLosses int
 }
 
 func (e *c11Env) rawDS(name string) base.DataStore {
@@ -160,6 +162,11 @@ func (e *c11Env) pre_(op *base.VerifOp, actor string) base.VerifDecision {
 	idx := e.opIndex
 	e.opIndex++
 	e.trace = append(e.trace, fmt.Sprintf("%d:%s(%s)", idx, op.Kind, c11KeyClass(op.Key)))
+	if e.persistKey != "" && idx > e.faultAt && k == e.persistKey && op.CasIn != 0 && c11TakesCas(op.Kind) && op.Kind != "Update" && op.Kind != "WriteUpdateWithXattrs" {
+		// the key stays contended: every later compare-and-swap of this request on it loses as well
+		e.persistLosses++
+		return base.VerifDecision{Action: base.VerifFailBefore, Err: verifCasMismatch()}
+	}
 	if idx == e.fault2At && idx != e.faultAt {
 		e.injected2 = fmt.Sprintf("error@%s(%s)", op.Kind, c11KeyClass(op.Key))
 		return base.VerifDecision{Action: base.VerifFailBefore, Err: errInjected}
@@ -183,6 +190,16 @@ func (e *c11Env) pre_(op *base.VerifOp, actor string) base.VerifDecision {
 		}
 		// (insert-only operations can fail with the same error class: "key exists" is reported as a CAS-class error)
 		return base.VerifDecision{Action: base.VerifFailBefore, Err: verifCasMismatch()}
+	case "cas-persistent":
+		// a hot key: this and every later compare-and-swap write of the request on the same key loses (the callers' retry
+		// loops are bounded; interactive store-level updates retry without bound and are not given this fault)
+		if op.Kind == "Update" || op.Kind == "WriteUpdateWithXattrs" || op.CasIn == 0 {
+			e.injected = ""
+			return base.VerifDecision{}
+		}
+		e.persistKey = k
+		e.persistLosses = 1
+		return base.VerifDecision{Action: base.VerifFailBefore, Err: verifCasMismatch()}
 	case "timeout-applied":
 		return base.VerifDecision{Action: base.VerifFailAfter, Err: base.ErrTimeout}
 	}
@@ -204,6 +221,7 @@ func (e *c11Env) measure(at int, kind string, fn func() *TestResponse) (resp *Te
 	e.mu.Lock()
 	e.gid = base.VerifGoroutineID()
 	e.opIndex, e.trace, e.faultAt, e.faultK, e.injected, e.injected2 = 0, nil, at, kind, "", ""
+	e.persistKey, e.persistLosses = "", 0
 	e.pre, e.order = map[string]c11RawState{}, nil
 	e.mu.Unlock()
 	resp = fn()
@@ -606,7 +624,7 @@ func TestVerif_C11_Faults(t *testing.T) {
 	// warm up (creates views etc. outside measured requests)
 	e.mustAdmin("PUT", "/{{.keyspace}}/warmup", `{"ch":["A"]}`, 201)
 
-	kinds := []string{"error", "cas", "timeout-applied"}
+	kinds := []string{"error", "cas", "cas-persistent", "timeout-applied"}
 	for _, rq := range append(c11Requests(), c11Rejections()...) {
 		isRejection := strings.HasPrefix(rq.Name, "reject-")
 		// fault-free run: the trace, and the request's baseline behaviour
@@ -661,7 +679,7 @@ func TestVerif_C11_Faults(t *testing.T) {
 		for i := 0; i < len(trace); i++ {
 			opKind := strings.SplitN(strings.SplitN(trace[i], ":", 2)[1], "(", 2)[0]
 			for _, k := range kinds {
-				if k == "cas" && !c11TakesCas(opKind) {
+				if (k == "cas" || k == "cas-persistent") && !c11TakesCas(opKind) {
 					continue
 				}
 				if k == "timeout-applied" && (strings.HasPrefix(opKind, "Get") || opKind == "Exists") {
@@ -677,6 +695,12 @@ func TestVerif_C11_Faults(t *testing.T) {
 					continue
 				}
 				run.Count("faults_injected", 1)
+				if k == "cas-persistent" {
+					run.Count("persistent_cas_loss_faults_injected", 1)
+					e.mu.Lock()
+					run.Max("persistent_cas_losses_in_one_request", e.persistLosses)
+					e.mu.Unlock()
+				}
 				run.Distinct("fault_sites", rq.Name+"|"+injected)
 				run.Nontrivial(rq.Name + "|" + injected + "|" + fmt.Sprint(i))
 				okf := resp.Code >= 200 && resp.Code < 300
